@@ -17,7 +17,8 @@ RULE = ("stratified + seeded random (configuration, sample) pairs inside the doc
         "beyond, total > N t); distinct = hash of (configuration, sample)")
 REQUIRED = [f"contract:NonnegMean.{t}" for t in nn.TESTS] + ["stratum:len1", "stratum:m_to_0", "stratum:m_to_u",
                                                              "stratum:m_above_u", "stratum:m_below_0",
-                                                             "random_order_false", "stratum:nondyadic_runs", "integer_dtype_samples", "object_warmed_up_with_another_N", "object_built_with_another_u"]
+                                                             "random_order_false", "stratum:nondyadic_runs", "integer_dtype_samples", "object_warmed_up_with_another_N", "object_built_with_another_u",
+            "object_used_on_another_sample_first"]
 ASSUMPTIONS = ["samples are numpy arrays of floats in [0,u] (dyadic in the boundary strata, runs of non-representable values in the nondyadic stratum); documented exclusions: finite-N SPRT with "
                "random_order=False (raises by design), Kaplan-Markov/Wald with finite N",
                "numpy/pandas are trusted"]
@@ -125,6 +126,8 @@ def run_case(case, rec):
         rec.count("object_warmed_up_with_another_N")
     if "u_built" in cfg:
         rec.count("object_built_with_another_u")
+    if cfg.get("reused"):
+        rec.count("object_used_on_another_sample_first")
     rec.count(f"combo:{nn.label(cfg)}")
     if any(m == 0 for m in mu):
         rec.count("regime:mu_exactly_0")
